@@ -1,7 +1,7 @@
 (* Extract.v -- extraction of the executable model and spec oracles to OCaml.
    ExtrOcamlBasic only; numbers stay the Coq datatypes. *)
 From Coq Require Import Extraction ExtrOcamlBasic.
-From Lhasa Require Import Base Generated Crc16 DecBase BitReader Null Lzs Lz5 Decoder S_Larc Lh1 Lzhuf PmaCommon Pm2 Pm1 InputStream Header BasicReader.
+From Lhasa Require Import Base Generated Crc16 DecBase BitReader Null Lzs Lz5 Decoder S_Larc Lh1 Lzhuf PmaCommon Pm2 Pm1 LhNew InputStream Header BasicReader Fs FsRun.
 Extraction Language OCaml.
 Set Extraction Optimize.
 Extraction "../harness/ml/model.ml"
@@ -15,6 +15,13 @@ Extraction "../harness/ml/model.ml"
   StartHuff reconst update char_code EncodeChar EncodePosition lzhuf_encode bits_to_bytes lz77_expand_4k
   pm2_init pm2_read pm2_max_read pm2_block_size
   pm1_init pm1_read pm1_max_read pm1_block_size
+  lh4_init lh4_read lh4_max_read lh4_block_size
+  lh5_init lh5_read lh5_max_read lh5_block_size
+  lh6_init lh6_read lh6_max_read lh6_block_size
+  lh7_init lh7_read lh7_max_read lh7_block_size
+  lhx_init lhx_read lhx_max_read lhx_block_size
+  lk7_init lk7_read lk7_max_read lk7_block_size
   mk_source lha_input_stream_new lha_input_stream_read lha_input_stream_skip
   lha_file_header_read mktime_utc collapse_path full_path
-  lha_basic_reader_new lha_basic_reader_next_file lha_basic_reader_read_compressed.
+  lha_basic_reader_new lha_basic_reader_next_file lha_basic_reader_read_compressed
+  run_ops fs_init dump run_case.
